@@ -2,7 +2,7 @@
 import re
 
 from analysis import (Prov, Guards, fmt, fmt_short, walk, roots, short, comparison, find_calls, callee_matches,
-                      must_pass, path_to, describe_path, const_int_of, edge_label)
+                      must_pass, path_to, describe_path, const_int_of, edge_label, canon, _alts, option_edges, closures_of)
 from facts import AnchorError, strip_closure
 from harness import Rule, guarded
 from c01 import bool_pass_edges, derives
@@ -222,9 +222,10 @@ def r3_r5(ctx):
                 if const_int_of(a) == 0:
                     continue
                 c = comparison(a)
-                if c and c[0] == "<" and re.match(r"Enr::seq\((PresentEntry|PendingEntry)::value\(", fmt_short(c[1])) and fmt_short(c[2]) == "Enr::seq(enr)":
+                stored = lambda x: all(re.match(r"Enr::seq\((PresentEntry|PendingEntry)::value\(", fmt_short(y)) for y in _alts(canon(x)))
+                if c and c[0] == "<" and stored(c[1]) and fmt_short(canon(c[2])) == "Enr::seq(enr)":
                     some = True
-                elif c and c[0] == ">" and re.match(r"Enr::seq\((PresentEntry|PendingEntry)::value\(", fmt_short(c[2])) and fmt_short(c[1]) == "Enr::seq(enr)":
+                elif c and c[0] == ">" and stored(c[2]) and fmt_short(canon(c[1])) == "Enr::seq(enr)":
                     some = True
                 else:
                     good = False
@@ -341,54 +342,62 @@ def r4(ctx):
 def r6(ctx):
     """'contactable in the node's IP mode': what IpMode::get_contactable_addr accepts as an address"""
     facts = ctx.facts
-    rule = Rule("C12.R6", "contactable address: IPv4 from udp4_socket; IPv6 only through canonical_ipv6_enr_addr (an IPv4-mapped address in the IPv6 field is not contactable)",
-                floor=4, engine="A-who + A-prov + A-dom")
+    rule = Rule("C12.R6", "contactable address: an IPv6 endpoint is taken from a record only where the IPv4-mapped test is applied to it (a mapped address is not contactable)",
+                floor=3, engine="A-who + A-prov + A-dom")
     GC = "crate::ipmode::IpMode::get_contactable_addr"
     b = facts.one(re.escape(GC) + "$")
     rule.analysed(b)
-    p = Prov(b, facts)
-    direct = []
+    # functions of the module (each with its closures) that read the record's IPv6 endpoint
+    fam = {}
     for pth, bb in sorted(facts.bodies.items()):
-        if pth.startswith(GC) and not pth.startswith(GC + "::canonical_ipv6_enr_addr"):
-            for bi, t in bb.calls():
-                if short(t.callee() or "").endswith("Enr::udp6_socket") or re.search(r"Enr(<.*>)?::(udp6_socket|ip6|udp6)$", t.callee() or ""):
-                    direct.append(pth.split("::")[-1])
-    rule.check(not direct, "get_contactable_addr reads the IPv6 endpoint only through canonical_ipv6_enr_addr", "contactable|raw-ipv6",
-               "IpMode::get_contactable_addr reads the record's IPv6 endpoint directly (%s): a record whose IPv6 field holds an IPv4-mapped address counts as contactable and "
-               "can enter or stay in the routing table" % ", ".join(direct), loc=b.loc(b.line))
+        if pth.startswith("crate::ipmode::") and "::tests::" not in pth and "::test::" not in pth and "{closure" not in pth:
+            # a function together with the closures it builds (wherever their bodies are filed: after helper inlining a closure of the helper
+            # is built by the caller)
+            fam[pth] = [bb] + [cb for cb, cp, tc in closures_of(facts, bb)]
+    reads6 = lambda bb: any(re.search(r"Enr(<.*>)?::(udp6_socket|ip6|udp6)$", short(t.callee() or "")) for bi, t in bb.calls())
+    readers = {fn: bodies for fn, bodies in fam.items() if any(reads6(x) for x in bodies)}
+    rule.check(bool(readers), "some function of crate::ipmode reads the IPv6 endpoint", "contactable|reader", "no function of crate::ipmode reads Enr::udp6_socket")
+    for fn, bodies in sorted(readers.items()):
+        tested = [x for x in bodies if any((t.callee() or "").endswith("ipmode::to_ipv4_mapped") for bi, t in x.calls())]
+        okp = False
+        for tb in tested:
+            rule.analysed(tb)
+            tp = Prov(tb, facts)
+            g = Guards(tb, tp, facts)
+            ret = canon(tp.local(0))
+            # a predicate closure (`filter(|a| to_ipv4_mapped(a.ip()).is_none())`): its value is "not mapped"
+            inner, neg = ret, False
+            while inner[0] == "un" and inner[1] == "Not":
+                inner, neg = inner[2], not neg
+            if inner[0] == "call" and re.search(r"Option::is_(some|none)$", short(inner[1])) and any(x[0] == "call" and short(x[1]).endswith("to_ipv4_mapped") for x in walk(inner)):
+                okp = okp or (short(inner[1]).endswith("is_none") != neg)
+                continue
+            # a selecting body (`if mapped.is_some() { None } else { Some(addr) }`): no Some is built past the "is mapped" edge
+            mapped = []
+            for bi, t, e in g.switches():
+                i2, n2 = e, False
+                while i2[0] == "un" and i2[1] == "Not":
+                    i2, n2 = i2[2], not n2
+                if i2[0] == "call" and re.search(r"Option::is_(some|none)$", short(i2[1])) and any(x[0] == "call" and short(x[1]).endswith("to_ipv4_mapped") for x in walk(i2)):
+                    f_, tr_ = g.bool_edges(bi)
+                    mapped.append((bi, tr_ if (short(i2[1]).endswith("is_some") != n2) else f_))
+                elif i2[0] == "discr" and any(x[0] == "call" and short(x[1]).endswith("to_ipv4_mapped") for x in walk(i2)):
+                    so, no = option_edges(g, lambda y: y[0] == "call" and short(y[1]).endswith("to_ipv4_mapped"))
+                    mapped += so
+            some_sites = [blk.idx for blk in tb.blocks for st_ in blk.stmts if st_.k == "a" and st_.rv.k == "agg" and st_.rv.j.get("variant") == "Some" and blk.idx in tb.live_blocks()]
+            if mapped and some_sites and not any(x in tb.reachable(tgt) for mb, tgt in mapped for x in some_sites):
+                okp = True
+        rule.check(okp, "%s applies the IPv4-mapped test to the IPv6 endpoint it reads (mapped: no address)" % fn.split("::")[-1], "contactable|raw-ipv6",
+                   "%s reads the record's IPv6 endpoint without applying the IPv4-mapped test to it: a record whose IPv6 field holds an IPv4-mapped address counts as "
+                   "contactable and can enter or stay in the routing table" % fn, loc=bodies[0].loc(bodies[0].line))
+    # get_contactable_addr produces addresses from these readers / the IPv4 endpoint only
+    p = Prov(b, facts)
     ret = p.local(0)
     alts = list(ret[1]) if ret[0] == "phi" else [ret]
-    okk = len(alts) >= 3
-    for a in alts:
-        txt = fmt(a, -60)
-        six = "canonical_ipv6_enr_addr" in txt
-        four = "udp4_socket" in txt or any(x[0] == "agg" and isinstance(x[1], str) and x[1].startswith("closure:") for x in walk(a))
-        okk = okk and (six or four)
-    rule.check(okk, "every arm returns the canonical IPv6 endpoint and / or the IPv4 endpoint of the record", "contactable|arms",
-               "IpMode::get_contactable_addr returns %s" % fmt_short(ret)[:200], loc=b.loc(b.line))
-    cb = facts.one(re.escape(GC) + r"::canonical_ipv6_enr_addr::\{closure#0\}$")
-    rule.analysed(cb)
-    cp = Prov(cb, facts)
-    g = Guards(cb, cp, facts)
-    mapped = []
-    for bi, t, e in g.switches():
-        inner = e
-        neg = False
-        while inner[0] == "un" and inner[1] == "Not":
-            inner, neg = inner[2], not neg
-        if inner[0] == "call" and re.search(r"Option::is_(some|none)$", short(inner[1])) and any(x[0] == "call" and short(x[1]).endswith("to_ipv4_mapped") for x in walk(inner)):
-            f_, tr_ = g.bool_edges(bi)
-            is_mapped_true = short(inner[1]).endswith("is_some") != neg
-            mapped.append((bi, tr_ if is_mapped_true else f_))
-    some_sites = [blk.idx for blk in cb.blocks for st_ in blk.stmts if st_.k == "a" and st_.rv.k == "agg" and st_.rv.j.get("variant") == "Some" and blk.idx in cb.live_blocks()]
-    okc = bool(mapped) and bool(some_sites)
-    for mb, tgt in mapped:
-        if any(x in cb.reachable(tgt) for x in some_sites):
-            okc = False
-    rule.check(okc, "canonical_ipv6_enr_addr yields nothing for an IPv4-mapped address", "contactable|mapped",
-               "canonical_ipv6_enr_addr returns an address although to_ipv4_mapped(ip) is Some", loc=cb.loc(cb.line))
-    who = sorted({strip_closure(pth) for pth, bb in facts.bodies.items() for bi, t in bb.calls() if (t.callee() or "") == GC + "::canonical_ipv6_enr_addr"})
-    rule.check(who == [GC], "canonical_ipv6_enr_addr is the IPv6 source of get_contactable_addr", "contactable|who", "canonical_ipv6_enr_addr is called from %s" % who)
+    txts = [fmt(a, -60) for a in alts]
+    okk = bool(alts) and all(any(r.split("::")[-1] in txt for r in readers) or "udp4_socket" in txt or "udp6_socket" in txt or
+                             any(x[0] == "agg" and isinstance(x[1], str) and x[1].startswith("closure:") for x in walk(a)) for a, txt in zip(alts, txts))
+    rule.check(okk, "every arm returns an endpoint of the record", "contactable|arms", "IpMode::get_contactable_addr returns %s" % fmt_short(ret)[:200], loc=b.loc(b.line))
     return rule
 
 
